@@ -1387,6 +1387,9 @@ func (i *interpreter) parseFloatStub(s value) value {
 // matchStub: a regular expression applied to symbolic text is a free boolean,
 // functionally consistent per (pattern, subject term) pair.
 func (i *interpreter) matchStub(re *regexp.Regexp, s value) value {
+	if _, isRope := s.(*Rope); !isRope {
+		return i.boolVal(i.regexMatchTerm(re, strBytes(s)))
+	}
 	i.freeStub("(*regexp.Regexp).MatchString (uninterpreted on symbolic text)")
 	key := fmt.Sprintf("%p", re)
 	for _, b := range strBytes(s) {
